@@ -76,11 +76,19 @@ class Deep:
         """Shutdown deep."""
         if not self.started:
             return
-        self.trigger_handler.shutdown()
-        self.task_handler.flush()
-        self.poll.shutdown()
+        # a failure in one step (a delivery, the service, a plugin) must not stop the remaining steps
+        steps = [("trigger handler", self.trigger_handler.shutdown), ("task handler", self.task_handler.flush),
+                 ("poll", self.poll.shutdown)]
+        for name, step in steps:
+            try:
+                step()
+            except Exception:
+                deep.logging.exception("Failed to shutdown %s", name)
         for plugin in self.config.plugins:
-            plugin.shutdown()
+            try:
+                plugin.shutdown()
+            except Exception:
+                deep.logging.exception("Failed to shutdown plugin %s", plugin.name)
         deep.logging.info("Deep is shutdown.")
         self.started = False
 
